@@ -382,7 +382,7 @@ func c11Sampled(c *vf.Ctx) {
 	if !c.Active(sub) {
 		return
 	}
-	n := c.N(6000, 400000)
+	n := c.N(30000, 400000)
 	for i := 0; i < n; i++ {
 		if !c.Mine(sub, i) {
 			continue
@@ -499,7 +499,7 @@ func c11Hostile(c *vf.Ctx) {
 	if !c.Active(sub) {
 		return
 	}
-	n := c.N(40000, 8000000)
+	n := c.N(200000, 8000000)
 	for i := 0; i < n; i++ {
 		if !c.Mine(sub, i) {
 			continue
